@@ -217,6 +217,10 @@ func runC16(c *core.Ctx) core.Meta {
 		}
 	}
 
+	{
+		stp := c.Rule("R16.11", "the component keeps ticking while any of its steps made progress: where a function with a bool result collects its answer in a loop (over requests per cycle, banks, ports), the value carried around the loop is derived from itself on the back edge (p = step() || p). A plain assignment keeps only the last iteration's answer; the component reports no progress and is not ticked again although an earlier iteration left work to continue", 1)
+		checkProgressAccumulated(c, stp, "R16.11", p, "The component stops ticking with work pending; requests already accepted are never completed")
+	}
 	// R16.10 a handled message leaves its port
 	st10 := c.Rule("R16.10", "a message the translator looked at and reported progress for is taken off its port: in every handler, from PeekIncoming (message present) no path reaches `return true` without RetrieveIncoming on the same port (callees followed). A late reply to a discarded access that is left at the head of the bottom port blocks every later reply: the accesses forwarded after a restart are never answered, and the component reports progress for ever", 2)
 	checkPeekedHandledConsumed(c, st10, "R16.10", p, "the message stays at the head of the port: every later message on that port is blocked behind it and the handler reports progress on every tick")
